@@ -52,7 +52,7 @@ func (*c09World) Info() kernel.WorldInfo {
 			"allocation failure cannot be injected into a Go program; the worker's address space is capped at 12 GiB so that a multi-GiB allocation kills the worker, which the journal turns into a reported violation",
 			"readers honour the io.Reader contract (at most two zero-length reads in a row)",
 		},
-		Real: []string{"bt.NewTxFromBytes", "bt.NewTxFromStream", "bt.Tx.ReadFrom", "bt.Txs.ReadFrom", "bt.Input.ReadFrom/ReadFromExtended", "bt.Output.ReadFrom", "bt.VarInt.ReadFrom",
+		Real: []string{"bt.NewTxFromBytes", "bt.NewTxFromString", "bt.NewTxFromStream", "bt.Tx.ReadFrom", "bt.Txs.ReadFrom", "bt.Input.ReadFrom/ReadFromExtended", "bt.Output.ReadFrom", "bt.VarInt.ReadFrom",
 			"json.Unmarshal into *bt.Tx, tx.NodeJSON(), txs.NodeJSON(), *bt.Input, *bt.Output, output.NodeJSON(), *bt.UTXO, utxo.NodeJSON(), utxos.NodeJSON()", "encoding/json (std-lib, real)"},
 		Stub:        []string{"sender = reference codec", "transport = kernel.Stream with fault plan", "stored JSON documents built by the harness"},
 		SimTimeNote: "decoders read no clock; simulated time is not applicable to this world.",
@@ -138,16 +138,17 @@ const (
 	epInputExt
 	epOutput
 	epVarInt
+	epFromString
 )
 
-var epNames = []string{"NewTxFromBytes", "NewTxFromStream", "Tx.ReadFrom", "Txs.ReadFrom", "Input.ReadFrom", "Input.ReadFromExtended", "Output.ReadFrom", "VarInt.ReadFrom"}
+var epNames = []string{"NewTxFromBytes", "NewTxFromStream", "Tx.ReadFrom", "Txs.ReadFrom", "Input.ReadFrom", "Input.ReadFromExtended", "Output.ReadFrom", "VarInt.ReadFrom", "NewTxFromString"}
 
 // runBinary feeds data (with the stream's fault plan) to one entry point.
 func runBinary(c *kernel.RunCtx, ep int, data []byte, plan kernel.Plan, truncAt, errAt int, errWith bool, doMeter bool) c09Res {
 	r := c09Res{ep: epNames[ep]}
 	c.Exec()
 	switch ep {
-	case epFromBytes, epFromStream:
+	case epFromBytes, epFromStream, epFromString:
 		b := data
 		if truncAt >= 0 && truncAt < len(b) {
 			b = b[:truncAt]
@@ -156,7 +157,19 @@ func runBinary(c *kernel.RunCtx, ep int, data []byte, plan kernel.Plan, truncAt,
 		r.supplied = len(b)
 		r.alloc = meter(doMeter, func() {
 			r.pn = catch(func() {
-				if ep == epFromBytes {
+				if ep == epFromString {
+					// the text door: the same bytes as hex digits; a cut in the middle of a byte leaves an odd digit
+					h := hex.EncodeToString(b)
+					if plan.Seed&1 == 1 && truncAt >= 0 && truncAt < len(data) {
+						h += hex.EncodeToString(data[truncAt : truncAt+1])[:1]
+					}
+					var tx *bt.Tx
+					tx, r.err = bt.NewTxFromString(h)
+					r.okTx = tx != nil && r.err == nil
+					if r.err == nil {
+						r.n = int64(len(b))
+					}
+				} else if ep == epFromBytes {
 					var tx *bt.Tx
 					tx, r.err = bt.NewTxFromBytes(b)
 					r.okTx = tx != nil && r.err == nil
@@ -288,7 +301,7 @@ func (w *c09World) Run(c *kernel.RunCtx) {
 	for i := 0; i < ntx; i++ {
 		txs = append(txs, genSmallRTx(c, extended))
 	}
-	big := c.RunIdx%40 == 7
+	big := c.RunIdx%41 == 7
 	if big {
 		// quota: one script longer than the decoder's read chunk, so chunk-boundary behaviour is reachable
 		c.Begin("big")
@@ -312,7 +325,7 @@ func (w *c09World) Run(c *kernel.RunCtx) {
 		c.End()
 		c.Count("probe.script_over_64k", 1)
 	}
-	many := c.RunIdx%40 == 17
+	many := c.RunIdx%41 == 17
 	if many {
 		// quota: more than a thousand well-formed elements behind a count, so that "reserve the rest once the
 		// list looks genuine" strategies are reachable
@@ -397,14 +410,14 @@ func (w *c09World) Run(c *kernel.RunCtx) {
 		streamEP = epTxsReadFrom
 	}
 	eps := []int{streamEP}
-	if container != 2 && (!big || c.RunIdx%80 == 7) {
+	if container != 2 && (!big || (c.RunIdx/41)%2 == 0) {
 		eps = append(eps, epFromStream)
 		if container == 0 {
-			eps = append(eps, epFromBytes)
+			eps = append(eps, epFromBytes, epFromString)
 		}
 	}
 	unitEnd := func(ep int) int { // where the unit this entry point decodes ends
-		if ep == epTxsReadFrom || ep == epFromBytes {
+		if ep == epTxsReadFrom || ep == epFromBytes || ep == epFromString {
 			return len(data)
 		}
 		return ends[0]
@@ -613,6 +626,22 @@ func (w *c09World) bigBlockThenForgedCount(c *kernel.RunCtx) {
 		}
 	}
 	c.Count("probe.huge_script_decoded", 1)
+	// proportionality holds for genuine data of any size: one 40 MiB data output, metered like everything else
+	{
+		huge := &models.RTx{Version: 1, Ins: []models.RIn{{Script: []byte{0x51}}}, Outs: []models.ROut{{Sats: 0, Script: make([]byte, (40<<20)+c.Choose(4096))}}}
+		enc, _ := huge.Encode(false, nil)
+		for _, ep := range []int{epTxReadFrom, epFromBytes} {
+			r := runBinary(c, ep, enc, kernel.Plan{}, -1, -1, false, true)
+			judge(c, r, "a genuine transaction with one 40 MiB data output", false, false, true)
+			if !c.Failed() && (r.err != nil || r.n != int64(len(enc))) {
+				c.Fail("decode", r.ep, "a genuine transaction with a 40 MiB data output was not decoded: err=%v n=%d of %d", r.err, r.n, len(enc))
+			}
+			if c.Failed() {
+				return
+			}
+		}
+		c.Count("probe.40MiB_script_metered", 1)
+	}
 	small := &models.RTx{Version: 1, Ins: []models.RIn{{Script: []byte{1}, PrevScript: []byte{2}}}, Outs: []models.ROut{{Script: []byte{3}}}}
 	for _, ext := range []bool{false, true} {
 		enc, fs := small.Encode(ext, nil)
@@ -789,6 +818,55 @@ func (w *c09World) jsonDocs(c *kernel.RunCtx, txs []*models.RTx, stream []byte, 
 		if c.Failed() {
 			return
 		}
+		// documents written by another producer of the same format: every object gains one key from the wider
+		// vocabulary of node / wallet transaction JSON and, in the same document, loses one of its own keys
+		if (c.RunIdx/16)%4 == 1 { // a quarter of the runs, spread evenly over the worker shards
+			var objs [][]string
+			if _, ok := tg.doc.(map[string]interface{}); ok {
+				objs = append(objs, nil)
+			}
+			for _, p := range paths {
+				if v := jsonAt(tg.doc, p); v != nil {
+					if _, ok := v.(map[string]interface{}); ok && len(objs) < 7 {
+						objs = append(objs, p)
+					}
+				}
+			}
+			const maxKeys = 9
+			c.Enumerate(fmt.Sprintf("json%d-foreign", ti), len(objs)*len(foreignKeys)*maxKeys, func(j int) {
+				op := objs[j/(len(foreignKeys)*maxKeys)]
+				fk := foreignKeys[(j/maxKeys)%len(foreignKeys)]
+				dk := j % maxKeys // 0: nothing removed, k: the k-th own key (sorted) removed
+				root := deepCopy(tg.doc)
+				obj := jsonAt(root, op).(map[string]interface{})
+				if _, has := obj[fk.k]; has {
+					return
+				}
+				removed := "nothing"
+				if dk > 0 {
+					keys := make([]string, 0, len(obj))
+					for k := range obj {
+						keys = append(keys, k)
+					}
+					sort.Strings(keys)
+					if dk > len(keys) {
+						return
+					}
+					removed = keys[dk-1]
+					delete(obj, removed)
+				}
+				obj[fk.k] = fk.v
+				b, err := json.Marshal(root)
+				if err != nil {
+					return
+				}
+				c.Count("fault.json_foreign_key", 1)
+				w.runJSON(c, tg, b, fmt.Sprintf("object at %q gains %q and loses %s", strings.Join(op, "."), fk.k, removed), "foreign:"+fk.k)
+			})
+			if c.Failed() {
+				return
+			}
+		}
 		// the whole document replaced by a scalar / empty container ("the stored value was overwritten")
 		roots := []string{"null", " null\n", "[]", "{}", "\"\"", "\"00\"", "0", "true", "[null]", "[{}]", "[[]]", "{\"\":null}"}
 		c.Enumerate(fmt.Sprintf("json%d-root", ti), len(roots), func(k int) {
@@ -879,6 +957,43 @@ func clip(s string, n int) string {
 		return s[:n] + "…"
 	}
 	return s
+}
+
+// foreignKeys: field names other producers of transaction JSON use (bitcoind / SV node verbose output, wallet
+// exports, the library's own two dialects), each with a value of the type that producer gives it.
+var foreignKeys = []struct {
+	k string
+	v interface{}
+}{
+	{"coinbase", "04ffff001d0104"}, {"txinwitness", []interface{}{"00"}}, {"hex", "00"}, {"txid", strings.Repeat("cd", 32)}, {"hash", strings.Repeat("cd", 32)},
+	{"asm", "OP_DUP"}, {"type", "nonstandard"}, {"addresses", []interface{}{"1BoatSLRHtKNngkdXEeobR76b53LETtpyT"}}, {"address", "1BoatSLRHtKNngkdXEeobR76b53LETtpyT"},
+	{"value", 0.5}, {"valueSat", 50000000}, {"satoshis", 7}, {"amount", 0.5}, {"n", 0}, {"vout", 0}, {"sequence", 1}, {"scriptSig", map[string]interface{}{"hex": "51"}},
+	{"scriptPubKey", map[string]interface{}{"hex": "51"}}, {"unlockingScript", "51"}, {"lockingScript", "51"}, {"prevout", map[string]interface{}{"value": 1, "scriptPubKey": map[string]interface{}{"hex": "51"}}},
+	{"blockhash", strings.Repeat("00", 32)}, {"confirmations", 3}, {"time", 1600000000}, {"blocktime", 1600000000}, {"blockheight", 700000}, {"size", 10}, {"version", 2}, {"locktime", 0}, {"lockTime", 0},
+	{"vin", []interface{}{}}, {"vout_list", []interface{}{}}, {"inputs", []interface{}{}}, {"outputs", []interface{}{}},
+}
+
+// jsonAt returns the value at a path (nil if the path does not exist).
+func jsonAt(doc interface{}, p []string) interface{} {
+	cur := doc
+	for _, k := range p {
+		if strings.HasPrefix(k, "[") {
+			var idx int
+			fmt.Sscanf(k, "[%d]", &idx)
+			a, ok := cur.([]interface{})
+			if !ok || idx >= len(a) {
+				return nil
+			}
+			cur = a[idx]
+		} else {
+			m, ok := cur.(map[string]interface{})
+			if !ok {
+				return nil
+			}
+			cur = m[k]
+		}
+	}
+	return cur
 }
 
 var jsonMutNames = []string{"delete", "null", "wrong-type", "non-hex", "odd-hex", "array-null", "negative", "huge-number", "empty-object", "long-hex", "short-hex", "empty-string", "very-long-hex", "fraction-9", "fraction-padded", "tiny-exp", "huge-exp", "neg-fraction", "int-2^24", "int-2^31", "int-2^62", "int-maxint64", "int-minint64"}
